@@ -117,6 +117,18 @@ Theorem C03_history_exactly_once_accounting : forall m, wf m = true -> good_init
 Proof. exact history_accounting. Qed.
 Print Assumptions C03_history_exactly_once_accounting.
 
+(* ... and when the target is the machine root (the machine restarts): every active state is left exactly once, then the
+   default descent from the root is entered, each state exactly once *)
+Theorem C03_restart_exactly_once_accounting : forall m, wf m = true -> good_initials m = true -> forall eng pr t ev s0 s1,
+  NoDup (s_cfg s0) ->
+  exec_external eng pr m t 0 ev s0 = (s1, None) ->
+  exists seg, s_log s1 = seg ++ s_log s0
+    /\ NoDup (leaves_of seg) /\ NoDup (enters_of seg)
+    /\ (forall x, In x (leaves_of seg) <-> In x (s_cfg s0))
+    /\ (forall x, In x (s_cfg s1) <-> In x (enters_of seg)).
+Proof. exact root_accounting. Qed.
+Print Assumptions C03_restart_exactly_once_accounting.
+
 (* internal / targetless transitions run actions only: configuration and history untouched *)
 Theorem C03_internal_actions_only : forall eng pr m t ev s,
   t_target t = TNone -> same_cfg s (fst (exec_transition eng pr m t ev s)).
